@@ -52,7 +52,8 @@ def work(task):
     viol = []
     for dev in task["devs"]:
         vis = V()
-        nodes, done, msgs = tree.run_dev(cfg, default_fn, alts, dev, h, vis, batch=int(task.get("batch", 1)))
+        nodes, done, msgs = tree.run_dev(cfg, default_fn, alts, dev, h, vis, batch=int(task.get("batch", 1)),
+                                         refine_at=task.get("refine_at"))
         stats["runs"] += 1
         stats["nodes"] += nodes
         stats["trials"] += done
@@ -63,7 +64,8 @@ def work(task):
                 stats["summary"][k] = stats["summary"].get(k, 0) + v
         for j, m in msgs:
             viol.append(dict(driver="dev", cfg=cfg, alts=task["alts"], dev=[list(d) for d in dev], h=j, message=m,
-                             batch=int(task.get("batch", 1)), visitor=task["visitor"], sig=dict(kind="node")))
+                             batch=int(task.get("batch", 1)), refine_at=task.get("refine_at"), visitor=task["visitor"],
+                             sig=dict(kind="node")))
         if len(viol) > 50:
             break
     return stats, viol
@@ -78,15 +80,16 @@ def replay(rec, visitor_spec):
     alts = _alt_fns(default_fn, [tuple(a) for a in rec["alts"]])
     dev = tuple((int(p), int(a)) for p, a in rec["dev"])
     vis = V()
-    nodes, done, msgs = tree.run_dev(cfg, default_fn, alts, dev, int(rec["h"]), vis, batch=int(rec.get("batch", 1)))
+    nodes, done, msgs = tree.run_dev(cfg, default_fn, alts, dev, int(rec["h"]), vis, batch=int(rec.get("batch", 1)),
+                                     refine_at=rec.get("refine_at"))
     return [m for _, m in msgs]
 
 
-def dev_tasks(cfg, h, b, visitor, alts=ALTS, chunk=150, start=2, batch=1):
+def dev_tasks(cfg, h, b, visitor, alts=ALTS, chunk=150, start=2, batch=1, refine_at=None):
     devs = list(tree.deviation_sets(h, len(alts), b, start=start))
     for i in range(0, len(devs), chunk):
         yield dict(kind="dev", cfg=cfg, h=h, alts=[list(a) for a in alts], devs=devs[i:i + chunk], visitor=visitor,
-                   batch=batch)
+                   batch=batch, refine_at=refine_at)
 
 
 def tree_tasks(cfg, alphabet_name, depth, visitor, split=2, batch=1):
@@ -100,7 +103,7 @@ def tree_tasks(cfg, alphabet_name, depth, visitor, split=2, batch=1):
 
 def standard_plan(ctx, visitor, depths_quick=(8, 7, 6, 5, 5), depths_thorough=(10, 9, 8, 7, 6),
                   boxes=("B0",), alphabets_fixed=("A013",), alphabet_pool=("A01", "Am201", "A01e6", "A3210", "A001"),
-                  n_seeded=2, long_runs=True):
+                  n_seeded=2, long_runs=True, refine_ops=False, deep_runs=False):
     """the plan of DESIGN C02: trees per (N, r, alphabet) + deviation-bounded long runs"""
     tasks = []
     th = ctx.thorough
@@ -140,7 +143,11 @@ def standard_plan(ctx, visitor, depths_quick=(8, 7, 6, 5, 5), depths_thorough=(1
                     cfg = dict(N=N, r=r, box="B1" if N == 2 else "B0", env=env)
                     h, b = (60, 2) if th else (30, 2)
                     tasks += list(dev_tasks(cfg, h, b, visitor))
-        bl = BENCH12 if th else ctx.pick(BENCH12, 6)
+        if deep_runs:
+            for env, N in (("const", 1), ("stair", 1), ("sin", 1)) + ((("lin", 1), ("quad", 1), ("const", 2)) if th else ()):
+                cfg = dict(N=N, r=2.0, box="B0", env=env)
+                tasks += list(dev_tasks(cfg, 9000 if th else 4200, 0, visitor, batch=50))
+        bl = BENCH12 if th else list(dict.fromkeys(ctx.pick(BENCH12, 6) + (["Hill:3"] if deep_runs else [])))
         for spec in bl:
             from mc.envs import bench
             N = bench(spec).numberOfFloatVariables
@@ -149,6 +156,15 @@ def standard_plan(ctx, visitor, depths_quick=(8, 7, 6, 5, 5), depths_thorough=(1
             tasks += list(dev_tasks(cfg, 60 if th else 40, 1, visitor, chunk=20))
             tasks += list(dev_tasks(cfg, 300 if th else 120, 0, visitor, batch=7))
             tasks += list(dev_tasks(cfg, 60 if th else 36, 1, visitor, chunk=20, batch=3))
+            if spec in ("Hill:3", "Shekel:7", "Rastrigin:2") and deep_runs:
+                # the deep end of the ladder: thousands of trials (batched calls, every trial judged)
+                tasks += list(dev_tasks(dict(cfg, r=3.0), 9000 if th else 4200, 0, visitor, batch=50))
+            if refine_ops:
+                # global iterations, one DoLocalRefinement call at every position p, then more global iterations
+                hh = 90 if th else 60
+                for pos in range(3, hh - 8, 2 if th else 5):
+                    for n_loc in ((5, 40) if th else (20,)):
+                        tasks += list(dev_tasks(cfg, hh, 0, visitor, refine_at=[pos, n_loc]))
     return tasks
 
 
@@ -193,6 +209,7 @@ def describe(tasks):
         else:
             b = max((len(d) for d in t["devs"]), default=0)
             key = f"N={c['N']} r={c['r']} env={c['env']} horizon={t['h']}" + \
+                  (f" refine_after={t['refine_at'][0]}" if t.get("refine_at") else "") + \
                   (f" batch={t['batch']}" if t.get("batch", 1) != 1 else "")
             e = devs.setdefault(key, [0, 0])
             e[0] += len(t["devs"])
